@@ -33,6 +33,7 @@ func checkC03(r *Report, known []Finding) {
 	}})
 	runE2E(r, known, e2eSpec{prop: "C03", obs: obs, np: 1500, nh: 10, npT: 20000, nhT: 16, nontriv: func(w string) bool { return w != "nil" && strings.Count(w, " ") >= 3 }})
 	c03EngineTies(r, known, NewRNG(r.Seed))
+	c03SpecValidation(r, NewRNG(r.Seed))
 	replayKnownExamples(r, known, "C03")
 }
 
